@@ -156,6 +156,13 @@ def gen_cases(tier, seed):
     """the number of reads of each input is measured in the worker that enumerates its expiry points: one case per input"""
     cases = [{"t": t, "mode": "all"} for t in TEXTS]
     cases += [{"t": t, "mode": "strat"} for t in BIG]
+    # 'cold': the FIRST parse of this text in the worker process is one whose deadline expires early (inside the sequence
+    # enumeration, or in the initial phase); only then the unlimited reference is taken.  Texts differ from all others
+    # (state keyed on the text that a timed-out call leaves behind must not leak into later calls).
+    for i, t in enumerate(["9 9 9 9 9", "7 7 7 7 7 7", "tomorrow 9 yesterday Sep 8 8 11 2023 1923", "1 3 5 7 9 11", "mo mi fr so", "4.4. 4.4. 4.4. 4.4.",
+                           "übermorgen 9pm", "friday 10-6", "11.05.2021 - 13.05.2021", "von 9 uhr bis 11 uhr"]):
+        for k in (3, 9, 27):
+            cases.append({"t": t + (" " * 0), "mode": "cold", "cold_k": k, "tag": "%d/%d" % (i, k)})
     if tier == "thorough":
         from ..spec import grammar as G
         r = C.rng(seed, "C13")
@@ -220,7 +227,9 @@ def check_trace(L, tr, nmatches):
 def run_case(case, ctx):
     L, mon = ctx["L"], ctx["mon"]
     text = case["t"]
-    key0 = "C13|" + text
+    key0 = "C13|" + text + ("|cold%s" % case.get("tag") if case["mode"] == "cold" else "")
+    if case["mode"] == "cold":
+        return _cold(case, ctx)
     # reference: unlimited run (timeout=0) - also oracle (5)
     tr0, full, err0, _ = _run(ctx, text, 0)
     nmatches = len(mon.case_matches)
@@ -279,7 +288,42 @@ def run_case(case, ctx):
                 ev={"clock_reads_total": nreads})
 
 
+def _cold(case, ctx):
+    """first parse of the text in this process: timed out after cold_k ticks; then the unlimited run; the yields of the
+    unlimited run are returned as a digest and compared by the coordinator with the digests other (fresh) worker processes
+    obtained for the same text after other first deadlines - and the timed-out yields must be a prefix of them"""
+    mon = ctx["mon"]
+    text = case["t"]
+    key0 = "C13|" + text + "|cold" + case["tag"]
+    tr1, out1, err1, _ = _run(ctx, text, case["cold_k"] - 0.5)
+    mon.events["expiry_point"] += 1
+    if any(e[0] == "check" and e[1].startswith("raise") for e in tr1.ev):
+        mon.events["deadline_fired"] += 1
+    tr0, full, err0, _ = _run(ctx, text, 0)
+    probs = []
+    if err1 or err0:
+        probs.append(("raises", "%s / %s" % (err1, err0)))
+    if any(e[0] == "check" and e[1] != "ok" for e in tr0.ev):
+        probs.append(("timeout0-expired", "timeout=0 raised a deadline after an earlier timed-out call"))
+    if out1 != full[:len(out1)]:
+        probs.append(("not-a-prefix", "yields of the cold timed-out call are not a prefix of the later unlimited run"))
+    if probs:
+        return C.viol("cold/" + probs[0][0], "%r (first call timed out after %d ticks): %s" % (text, case["cold_k"], probs[0][1]), key0, "cold")
+    import hashlib
+    dig = hashlib.sha256(json.dumps(full, sort_keys=True, default=str).encode()).hexdigest()[:16]
+    return C.ok(key0, "cold", nt=True, obs_={"text": text, "cold_k": case["cold_k"], "unlimited_yields": len(full), "digest": dig})
+
+
 def post_check(results, summaries, events, rules, tier):
+    # the unlimited run must give the same yields whichever deadline the first call of that text had (different worker processes)
+    by = {}
+    for r in results:
+        o = r.get("obs") or {}
+        if r["st"] == "ok" and r.get("cls") == "cold" and "digest" in o:
+            by.setdefault(o["text"], set()).add((o["digest"], o["unlimited_yields"]))
+    for t, ds in by.items():
+        if len(ds) > 1:
+            yield ("violation", "timeout=0 after an earlier timed-out call of %r gives different candidate streams depending on where that deadline fell: %s" % (t, sorted(ds)))
     if not events.get("expiry_point") or not events.get("deadline_fired"):
         yield ("inconclusive", "no expiry point observed firing (%s)" % {k: events.get(k) for k in ("expiry_point", "deadline_fired")})
 
